@@ -4,6 +4,7 @@ from mc.engine import Sub, InternalError
 from mc.common import single_bits, DATA, expander
 from mc.checks import cipherfam as F
 from mc.refs import blockciphers as R
+RDES = R
 
 
 def keylist(tier):
@@ -78,6 +79,45 @@ def run(ctx, pt):
         ctx.eq('C18/library-des-vs-FIPS46-3', ctx.attempt(D.enc, b), ('ok', exp))
 
 
+def pts_states(tier):
+    ks = [bytes.fromhex('0123456789abcdef'), expander(8, 5)]
+    return [(k, rnd) for k in ks for rnd in range(1, 17)]
+
+
+def run_states(ctx, pt):
+    """blocks chosen (with the reference DES) so that the internal state after round `rnd` is all-zero, all-ones, a single
+    bit or has one zero half: value classes of the 96-bit white-box state that no block family reaches by chance"""
+    from crysp import wb
+    key, rnd = pt
+    KT, M1, M2, M3 = build(ctx, key)
+    W = wb.WhiteDES(KT, M1, M2, M3)
+    F32 = 0xffffffff
+    for (L, R) in ((0, 0), (F32, F32), (0, F32), (F32, 0), (0, 0x08000000), (1, 0), (0, 1), (0x80000000, 0), (0, 0x80000000), (0x12345678, 0)):
+        b = R.des_block_reaching(key, rnd, L, R) if False else RDES.des_block_reaching(key, rnd, L, R)
+        ctx.eq('C18/whitebox-enc-vs-FIPS46-3/internal-state-classes', ctx.attempt(W.enc, b), ('ok', RDES.des_enc(key, b)))
+
+
+def pts_inplace(tier):
+    return [(0,), (1,)]
+
+
+def run_inplace(ctx, pt):
+    """the caller reuses one Bits key object, overwriting it in place between two table generations"""
+    from crysp.bits import Bits
+    from crysp import wb
+    k1, k2 = (bytes.fromhex('0123456789abcdef'), expander(8, 6)) if pt[0] == 0 else (expander(8, 7), bytes.fromhex('8123456789abcdef'))
+    bK = Bits(k1, 64)
+    KT = [ctx.call(wb.table_rKT, r, bK)[1] for r in range(16)]
+    W1 = wb.WhiteDES(KT, wb.table_M1(), wb.table_M2()[0], wb.table_M3())
+    b = expander(8, 8)
+    ctx.eq('C18/whitebox-enc-vs-FIPS46-3', ctx.attempt(W1.enc, b), ('ok', RDES.des_enc(k1, b)))
+    bK[0:64] = Bits(k2, 64)
+    KT = [ctx.call(wb.table_rKT, r, bK)[1] for r in range(16)]
+    W2 = wb.WhiteDES(KT, wb.table_M1(), wb.table_M2()[0], wb.table_M3())
+    ctx.eq('C18/whitebox-enc-vs-FIPS46-3/key-object-overwritten-in-place', ctx.attempt(W2.enc, b), ('ok', RDES.des_enc(k2, b)))
+    ctx.eq('C18/whitebox-enc-vs-FIPS46-3', ctx.attempt(W1.enc, b), ('ok', RDES.des_enc(k1, b)))
+
+
 def STATIC():
     """the key-independent tables as generated once in this process (under the all-zero key)"""
     if 's' not in _static:
@@ -94,7 +134,10 @@ def selftest():
 
 
 def subchecks():
-    return [Sub('programs', pts, run, engine='P', exhaustive=False, chunk=1,
+    return [Sub('internal-states', pts_states, run_states, engine='P', exhaustive=False, chunk=1,
+                bound='2 keys x every round 1..16 x 10 internal (L,R) states (zero, all-ones, one zero half, single bits): the block reaching that state is computed with the reference DES and encrypted by the table network'),
+            Sub('key-object-reuse', pts_inplace, run_inplace, engine='H', chunk=1, bound='tables generated from one Bits key object that is overwritten in place with another key between two generations'),
+            Sub('programs', pts, run, engine='P', exhaustive=False, chunk=1,
                 bound='one generated table network per key: 64 single-bit keys (incl. the 8 parity bits), zero, all-ones, 4 weak + 12 semi-weak keys, patterns, 8 parity-only variants (quick: 37 keys); each run on the 64 single-bit blocks, zero, all-ones and 4 patterns (quick: 22 blocks); structure of every table; M1/M2/M3 identical across keys and calls; each program is generated right after the programs of two neighbouring keys (one key bit / one parity bit away)')]
 
 
